@@ -186,7 +186,8 @@ static int wait_performed(round_t *r, int n, int ms) {
 	for (int i = 0; i < ms * 20; i++) { if (performed(r) >= n) return 1; usleep(50); }
 	return performed(r) >= n;
 }
-static void set_phase(round_t *r, int p) { atomic_store(&r->phase, p); dv_user(DVU_MARK, 2 * r->k, 2, (unsigned long long)p); }
+static _Atomic int wd_subm;
+static void set_phase(round_t *r, int p) { atomic_store(&wd_subm, r->subm); atomic_store(&r->phase, p); dv_user(DVU_MARK, 2 * r->k, 2, (unsigned long long)p); }
 
 static const unsigned long FLAGSETS[] = { 0, 0, 0, DISPATCH_BLOCK_BARRIER, DISPATCH_BLOCK_DETACHED, DISPATCH_BLOCK_ASSIGN_CURRENT,
 	DISPATCH_BLOCK_NO_QOS_CLASS, DISPATCH_BLOCK_INHERIT_QOS_CLASS, DISPATCH_BLOCK_ENFORCE_QOS_CLASS,
@@ -431,11 +432,36 @@ static void round_slot(round_t *r) {
 	print_round(r, 1, stuck);
 }
 
+// watchdog: a round that makes no progress for 20 s is a hang (a waiter, a dispatch_sync or an invocation never
+// completed): report it, dump what was recorded and exit with status 3
+static _Atomic long wd_round = -1; static _Atomic int wd_kind;
+static void *watchdog(void *a) {
+	(void)a; long last = -2; int idle = 0;
+	for (;;) {
+		usleep(500000);
+		long cur = atomic_load(&wd_round);
+		if (cur == last) idle++; else { idle = 0; last = cur; }
+		if (cur == -3) return NULL;
+		if (idle >= 40) {
+			printf("HANG round=%ld kind=%d subm=%d\n", cur, atomic_load(&wd_kind), atomic_load(&wd_subm));
+			dv_dump(stdout); fflush(stdout); _exit(3);
+		}
+	}
+}
 static void on_sig(int s) { (void)s; }
+// DISPATCH_CLIENT_CRASH (ud2), SIGSEGV, abort: report, dump what was recorded so far, exit with status 4
+static void on_crash(int sig) {
+	static _Atomic int once; if (atomic_fetch_add(&once, 1)) { for (;;) pause(); }
+	printf("CRASH signal=%d round=%ld kind=%d subm=%d\n", sig, atomic_load(&wd_round), atomic_load(&wd_kind), atomic_load(&wd_subm));
+	atomic_store(&dv_enabled, 0);
+	dv_dump(stdout); fflush(stdout); _exit(4);
+}
 int main(int argc, char **argv) {
 	uint64_t seed = argc > 1 ? strtoull(argv[1], 0, 10) : 1; int nrounds = argc > 2 ? atoi(argv[2]) : 40;
 	int permille = argc > 3 ? atoi(argv[3]) : 150;
 	struct sigaction sa; memset(&sa, 0, sizeof sa); sa.sa_handler = on_sig; sigaction(SIGUSR1, &sa, NULL);
+	sa.sa_handler = on_crash; sigaction(SIGILL, &sa, NULL); sigaction(SIGSEGV, &sa, NULL); sigaction(SIGABRT, &sa, NULL);
+	sigaction(SIGBUS, &sa, NULL); sigaction(SIGTRAP, &sa, NULL);
 	setvbuf(stdout, NULL, _IOFBF, 1 << 20);
 	ht = calloc(HT_SZ, sizeof *ht);
 	dv_install(seed, permille); _dispatch_verif_cb = c19_cb;
@@ -443,16 +469,19 @@ int main(int argc, char **argv) {
 			offsetof(struct dispatch_block_private_data_s, dbpd_performed), offsetof(struct dispatch_block_private_data_s, dbpd_queue),
 			offsetof(struct dispatch_block_private_data_s, dbpd_thread), sizeof(struct dispatch_block_private_data_s));
 	uint64_t g = seed * 6364136223846793005ull + 1442695040888963407ull;
+	pthread_t wd; pthread_create(&wd, NULL, watchdog, NULL);
 	for (int k = 0; k < nrounds; k++) {
 		round_t *r = calloc(1, sizeof *r);
 		r->k = k; r->rng = xr(&g) | 1; sem_init(&r->gate, 0, 0); pthread_mutex_init(&r->wmu, NULL);
 		unsigned c = (unsigned)(xr(&g) % 20);
 		r->kind = c < 10 ? 0 : c < 13 ? 1 : c < 15 ? 2 : c < 19 ? 3 : 4;
+		atomic_store(&wd_kind, r->kind); atomic_store(&wd_round, k);
 		if (r->kind == 0) round_single(r); else if (r->kind == 1) round_multi(r); else if (r->kind == 2) round_perform(r);
 		else if (r->kind == 3) round_lostcancel(r); else round_slot(r);
 		if (getenv("C19_TIMING")) { struct timespec ts; clock_gettime(CLOCK_MONOTONIC, &ts); fprintf(stderr, "T %d kind=%d subm=%d hold=%d %ld.%03ld\n", k, r->kind, r->subm, r->hold, (long)ts.tv_sec, ts.tv_nsec / 1000000); }
 		// rounds are leaked on purpose: late worker-thread accesses stay valid and addresses are never reused
 	}
+	atomic_store(&wd_round, -3);
 	usleep(2000);
 	dv_dump(stdout);
 	return 0;
